@@ -86,6 +86,11 @@ def forms(e, vs, widths=None, subst=None):
             for i, f in enumerate(p):
                 out[i] ^= f
         return out
+    if op == 'call' and e.args and e.args[0] == 'xor' and len(e.args) == 2:
+        acc = 0
+        for f in forms(e.args[1], vs, widths, subst):        # x.xor(): the XOR of all bits of x
+            acc ^= f
+        return [acc]
     raise NotAffine('operator %s is not GF(2)-affine: %s' % (op, e.canon()[:80]))
 
 
